@@ -480,3 +480,322 @@ Proof.
   intros ops m root c Hv Hwf E. destruct (chain_contained_lemma ops m root c Hv Hwf E) as [[H1 H2] H3].
   repeat split; assumption.
 Qed.
+
+(* ================================================================== the model satisfies the checker *)
+Definition kind_of (a : accessor) : kind :=
+  match a with
+  | ASlice _ => KSlice | ARef _ => KRef | AArr _ => KArr | ATyped _ => KTyped | AAtomic _ => KAtomic
+  | AHost _ => KHost | ARegion _ => KRegion | AGRegion _ => KGRegion
+  end.
+
+Lemma ty_align_pow2 t : exists k, ty_align t = 2 ^ k.
+Proof.
+  unfold ty_align.
+  repeat match goal with |- context [match ?x with _ => _ end] => destruct x end;
+    first [exists 0; reflexivity|exists 1; reflexivity|exists 2; reflexivity|exists 3; reflexivity|exists 4; reflexivity].
+Qed.
+Lemma dop_of_wf o d : dop_of o = Some d -> op_wf d.
+Proof.
+  unfold dop_of. destruct (s_rq o); intros E; inversion E; subst; cbn [op_wf ety_of e_align];
+    try exact I; apply ty_align_pow2.
+Qed.
+
+(* what the harness-side observation of a valid accessor is, in closed form *)
+Definition closed_obs (rb ridx : N) (a : accessor) : sobs :=
+  {| o_class := 0; o_off := acc_base a - rb; o_len := acc_len a; o_glen := acc_len a;
+     o_nelem := acc_nelem a; o_ridx := ridx |}.
+Lemma wrapping_sub_le x y : y <= x -> wrapping_sub x y = x - y.
+Proof. intros H. unfold wrapping_sub. destruct (N.leb_spec y x); [reflexivity|lia]. Qed.
+Lemma obs_of_closed c ridx a : acc_valid a -> root_base c ridx <= acc_base a ->
+  obs_of c ridx a = closed_obs (root_base c ridx) ridx a.
+Proof.
+  intros Hv Hb. unfold acc_valid in Hv. unfold obs_of, closed_obs.
+  destruct a as [s|r|x|t|t|h|r|g]; cbn [acc_guard acc_base acc_len acc_nelem] in *;
+    try (cbn [vs_ptr_guard vr_ptr_guard pg_addr pg_len vs_len vr_len]; rewrite wrapping_sub_le by assumption; reflexivity).
+  rewrite va_ptr_guard_eq by lia. cbn [bind pg_addr pg_len]. rewrite wrapping_sub_le by assumption. reflexivity.
+Qed.
+
+(* the checker's knowledge of the current accessor agrees with the model's accessor *)
+Definition rel_acc (c : case01) (g : geom) (ridx : N) (a : accessor) : Prop :=
+  acc_valid a /\ g_kind g = kind_of a /\ g_ridx g = ridx /\
+  root_base c ridx + g_off g = acc_base a /\ g_len g = acc_len a /\ g_nelem g = acc_nelem a.
+Definition rel (c : case01) (g : geom) (st : rstate) : Prop :=
+  match st with
+  | SAcc ridx a => rel_acc c g ridx a
+  | SGMem => g_kind g = KGMem /\ is_slice_root (c_rootk c) = false
+  end.
+
+Lemma rk_lemma p o d : dop_of o = Some d -> fits p d ->
+  result_kind (kind_of p) (s_rq o) = Some (kind_of (child p d)).
+Proof.
+  unfold dop_of. intros E Hf.
+  destruct p as [s|r|x|t|t|h|r|g]; destruct (s_rq o); inversion E; subst;
+    cbn [fits fits_vm] in Hf; try contradiction; reflexivity.
+Qed.
+
+Lemma aligned_at_true a al : a mod al = 0 -> aligned_at a al = true.
+Proof. intros H. unfold aligned_at. rewrite H. reflexivity. Qed.
+
+Lemma fitsb_lemma c g ridx p o d : dop_of o = Some d -> fits p d -> rel_acc c g ridx p ->
+  fitsb c g o = true.
+Proof.
+  unfold dop_of. intros E Hf (Hv & Hk & Hr & Hoff & Hlen & Hn).
+  unfold fitsb. rewrite Hr.
+  destruct p as [s|r|x|t|t|h|r|gr]; destruct (s_rq o); inversion E; subst;
+    cbn [fits fits_vm ety_of e_size e_align] in Hf; try contradiction;
+    cbn [acc_base acc_len acc_nelem va_len] in Hoff, Hlen, Hn;
+    try reflexivity;
+    rewrite ?andb_true_iff, ?N.leb_le, ?N.ltb_lt, ?N.eqb_eq;
+    repeat match goal with H : _ /\ _ |- _ => destruct H end;
+    repeat split; try lia;
+    try (apply aligned_at_true; rewrite Hoff; assumption).
+  unfold va_len in Hn. lia.
+Qed.
+
+Lemma extent_lemma p o d ob : dop_of o = Some d -> fits p d ->
+  o_len ob = acc_len (child p d) -> o_nelem ob = acc_nelem (child p d) ->
+  obs_extent (kind_of (child p d)) o ob = acc_len (child p d).
+Proof.
+  unfold dop_of, obs_extent, elem_size. intros E Hf Hl Hn.
+  destruct p as [s|r|x|t|t|h|r|g]; destruct (s_rq o); inversion E; subst;
+    cbn [fits fits_vm] in Hf; try contradiction;
+    cbn [child child_vm kind_of acc_len acc_nelem va_len va_nelem va_esz ety_of e_size] in *;
+    try assumption; rewrite Hn; reflexivity.
+Qed.
+
+Lemma aligned_lemma c p o d ob : dop_of o = Some d -> fits p d ->
+  root_base c (o_ridx ob) + o_off ob = acc_base (child p d) ->
+  alignedb c (kind_of (child p d)) o ob = true.
+Proof.
+  unfold dop_of, alignedb. intros E Hf Hb.
+  destruct p as [s|r|x|t|t|h|r|g]; destruct (s_rq o); inversion E; subst;
+    cbn [fits fits_vm] in Hf; try contradiction;
+    cbn [child child_vm kind_of kind_eqb orb acc_base tr_addr ety_of e_size e_align] in *;
+    try reflexivity; apply aligned_at_true; rewrite Hb;
+    repeat match goal with H : _ /\ _ |- _ => destruct H end; assumption.
+Qed.
+
+Lemma kind_of_not_gmem p : kind_eqb (kind_of p) KGMem = false.
+Proof. destruct p; reflexivity. Qed.
+
+Lemma step_acc_ok c g ridx p o d : dop_of o = Some d -> rel_acc c g ridx p -> fits p d ->
+  step_ok c g o (closed_obs (root_base c ridx) ridx (child p d)) = true /\
+  rel_acc c (step_geom g o (closed_obs (root_base c ridx) ridx (child p d))) ridx (child p d).
+Proof.
+  intros E HR Hf. pose proof HR as (Hv & Hk & Hr & Hoff & Hlen & Hn).
+  destruct (child_inside p d Hv Hf) as [[Hi1 Hi2] Hvc].
+  set (a' := child p d) in *. set (rb := root_base c ridx) in *.
+  assert (Hrb : rb <= acc_base a') by lia.
+  set (ob := closed_obs rb ridx a').
+  assert (Hext : obs_extent (kind_of a') o ob = acc_len a').
+  { apply extent_lemma with (d := d); try assumption; reflexivity. }
+  assert (Hob : root_base c (o_ridx ob) + o_off ob = acc_base a').
+  { unfold ob, closed_obs; cbn [o_ridx o_off]. fold rb. lia. }
+  unfold step_ok, step_geom. change (o_class ob) with 0. rewrite N.eqb_refl.
+  rewrite Hk, (rk_lemma p o d E Hf). fold a'. split.
+  - rewrite !andb_true_iff. repeat split.
+    + apply fitsb_lemma with (ridx := ridx) (p := p) (d := d); assumption.
+    + unfold containedb. rewrite Hk, kind_of_not_gmem.
+      unfold obs_reach. rewrite Hext. change (o_glen ob) with (acc_len a'). change (o_ridx ob) with ridx.
+      change (o_off ob) with (acc_base a' - rb).
+      rewrite Hr, N.eqb_refl. cbn [andb].
+      assert (HR2 : (if acc_len a' =? GUARD_PANIC then acc_len a' else N.max (acc_len a') (acc_len a')) = acc_len a').
+      { destruct (acc_len a' =? GUARD_PANIC); [reflexivity|apply N.max_id]. }
+      rewrite HR2. rewrite andb_true_iff, N.leb_le, N.leb_le. unfold acc_valid in *. lia.
+    + apply aligned_lemma with (p := p) (d := d); assumption.
+  - unfold rel_acc. cbn [g_kind g_ridx g_off g_len g_nelem]. rewrite Hext.
+    change (o_ridx ob) with ridx. change (o_off ob) with (acc_base a' - rb). change (o_nelem ob) with (acc_nelem a').
+    fold rb. repeat split; try assumption; try reflexivity; try lia.
+Qed.
+
+Lemma class_of_derr_nz e : class_of_derr e <> 0.
+Proof. destruct e as [[]|[]| |]; cbn; discriminate. Qed.
+
+Lemma err_step c g o cl : cl <> 0 -> step_ok c g o (err_obs cl) = true /\ step_geom g o (err_obs cl) = g.
+Proof.
+  intros H. unfold step_ok, step_geom, err_obs; cbn [o_class].
+  destruct (N.eqb_spec cl 0); [contradiction|]. split; reflexivity.
+Qed.
+
+(* one request on an accessor state *)
+Lemma run_step_acc c g ridx p o : rel_acc c g ridx p ->
+  let '(ob, st') := run_step c (SAcc ridx p) o in
+  step_ok c g o ob = true /\ rel c (step_geom g o ob) st'.
+Proof.
+  intros HR. cbn [run_step]. destruct (dop_of o) as [d|] eqn:E.
+  2:{ destruct (err_step c g o 7 ltac:(discriminate)) as [H1 H2]. rewrite H2. split; [exact H1|exact HR]. }
+  pose proof HR as (Hv & _).
+  pose proof (derive_iff (c_mode c) p d) as HI.
+  unfold finish. destruct (derive (c_mode c) p d) as [[a'|e]|s|] eqn:D.
+  - destruct (HI a' Hv (dop_of_wf o d E)) as [HI1 _]. destruct (HI1 eq_refl) as [Hf ->].
+    destruct (child_inside p d Hv Hf) as [[Hi1 _] Hvc].
+    pose proof HR as (_ & _ & _ & Hoff & _).
+    rewrite obs_of_closed by (try assumption; lia).
+    apply step_acc_ok; assumption.
+  - destruct (err_step c g o (class_of_derr e) (class_of_derr_nz e)) as [H1 H2]. rewrite H2. split; [exact H1|exact HR].
+  - destruct (err_step c g o 5 ltac:(discriminate)) as [H1 H2]. rewrite H2. split; [exact H1|exact HR].
+  - destruct (err_step c g o 5 ltac:(discriminate)) as [H1 H2]. rewrite H2. split; [exact H1|exact HR].
+Qed.
+
+(* ------------------------------------------------------------------ GuestMemory roots *)
+Lemma find_region_lin_spec l : forall i0 addr i r,
+  find_region_lin i0 (mk_regions i0 l) addr = Some (i, r) ->
+  exists gb sz, nth_error l (N.to_nat (i - i0)) = Some (gb, sz) /\ i0 <= i /\
+    r = GR (RG (REG_BASE + i * REG_STRIDE) sz) gb /\ gb <= addr /\ addr - gb < sz.
+Proof.
+  induction l as [|[gb sz] l IH]; intros i0 addr i r E; cbn [mk_regions find_region_lin] in E; [discriminate|].
+  cbn [gr_base gr_len gr_map rg_size] in E.
+  destruct (N.leb_spec gb addr) as [H1|H1]; cbn [andb] in E.
+  - destruct (N.ltb_spec (addr - gb) sz) as [H2|H2].
+    + inversion E; subst. exists gb, sz. rewrite N.sub_diag. cbn [N.to_nat nth_error].
+      repeat split; try reflexivity; try assumption; lia.
+    + destruct (IH _ _ _ _ E) as (gb' & sz' & Hn & Hi & Hr & Ha & Hb).
+      exists gb', sz'. replace (N.to_nat (i - i0)) with (S (N.to_nat (i - (i0 + 1)))) by lia.
+      cbn [nth_error]. repeat split; try assumption; lia.
+  - destruct (IH _ _ _ _ E) as (gb' & sz' & Hn & Hi & Hr & Ha & Hb).
+    exists gb', sz'. replace (N.to_nat (i - i0)) with (S (N.to_nat (i - (i0 + 1)))) by lia.
+    cbn [nth_error]. repeat split; try assumption; lia.
+Qed.
+
+
+Lemma REG_BASE_val : REG_BASE = 70368744177664. Proof. reflexivity. Qed.
+Lemma REG_STRIDE_val : REG_STRIDE = 1099511627776. Proof. reflexivity. Qed.
+
+Lemma find_ok l addr i r : wf_regions l ->
+  find_region_lin 0 (mk_regions 0 l) addr = Some (i, r) ->
+  exists gb sz, nth_error l (N.to_nat i) = Some (gb, sz) /\ In (gb, sz) l /\
+    r = GR (RG (REG_BASE + i * REG_STRIDE) sz) gb /\ gb <= addr /\ addr - gb < sz /\
+    REG_BASE + i * REG_STRIDE + sz < W64.
+Proof.
+  intros [Hsz Hlen] E. destruct (find_region_lin_spec l 0 addr i r E) as (gb & sz & Hn & _ & Hr & Ha & Hb).
+  rewrite N.sub_0_r in Hn. exists gb, sz.
+  assert (Hin : In (gb, sz) l) by (eapply nth_error_In; eassumption).
+  assert (Hs : sz < REG_STRIDE). { rewrite Forall_forall in Hsz. apply (Hsz (gb, sz) Hin). }
+  assert (Hi : (N.to_nat i < length l)%nat). { apply nth_error_Some. rewrite Hn. discriminate. }
+  repeat split; try assumption.
+  rewrite REG_BASE_val, REG_STRIDE_val in *. rewrite W64_val. lia.
+Qed.
+
+Lemma run_step_gmem c g o : wf_regions (c_regions c) -> is_slice_root (c_rootk c) = false ->
+  g_kind g = KGMem ->
+  let '(ob, st') := run_step c SGMem o in
+  step_ok c g o ob = true /\ rel c (step_geom g o ob) st'.
+Proof.
+  intros Hwf Hroot Hk. cbn [run_step].
+  assert (NA : step_ok c g o (err_obs 7) = true /\ rel c (step_geom g o (err_obs 7)) SGMem).
+  { destruct (err_step c g o 7 ltac:(discriminate)) as [H1 H2]. rewrite H2. split; [exact H1|exact (conj Hk Hroot)]. }
+  assert (ERR : forall cl, cl <> 0 -> step_ok c g o (err_obs cl) = true /\ rel c (step_geom g o (err_obs cl)) SGMem).
+  { intros cl Hcl. destruct (err_step c g o cl Hcl) as [H1 H2]. rewrite H2. split; [exact H1|exact (conj Hk Hroot)]. }
+  destruct (find_region_lin 0 (mk_regions 0 (c_regions c)) (s_a o)) as [[i r]|] eqn:F.
+  2:{ destruct (s_rq o) eqn:Q; try exact NA; cbn [option_map finish lift_g bind gm_get_slice gm_get_host_address gm_to_region_addr];
+      apply ERR; discriminate. }
+  destruct (find_ok _ _ _ _ Hwf F) as (gb & sz & Hn & Hin & Hr & Ha & Hb & Hbound).
+  assert (Hrb : root_base c i = REG_BASE + i * REG_STRIDE) by (unfold root_base; rewrite Hroot; reflexivity).
+  assert (Hvr : forall r', Some r = Some r' -> acc_valid (AGRegion r')).
+  { intros r' X; inversion X; subst r'. unfold acc_valid. rewrite Hr. cbn [acc_base acc_len gr_map rg_addr rg_size]. exact Hbound. }
+  destruct (s_rq o) eqn:Q; try exact NA; cbn [option_map snd].
+  - (* get_slice *)
+    unfold finish, lift_g.
+    destruct (gm_get_slice (c_mode c) (Some r) (s_a o) (s_b o)) as [[s|e]|x|] eqn:G; cbn [bind];
+      try (apply ERR; try apply class_of_derr_nz; discriminate).
+    destruct (gm_get_slice_lemma _ _ _ _ _ Hvr G) as (r' & X & _ & Hs & Hfit & _). inversion X; subst r'. clear X.
+    rewrite Hr in Hs, Hfit. cbn [gr_map gr_base rg_addr rg_size] in Hs, Hfit.
+    rewrite obs_of_closed.
+    2:{ unfold acc_valid. rewrite Hs. cbn [acc_base acc_len vs_addr vs_size]. lia. }
+    2:{ rewrite Hrb, Hs. cbn [acc_base vs_addr]. lia. }
+    rewrite Hrb. unfold closed_obs. rewrite Hs. cbn [acc_base acc_len acc_nelem vs_addr vs_size].
+    replace (REG_BASE + i * REG_STRIDE + (s_a o - gb) - (REG_BASE + i * REG_STRIDE)) with (s_a o - gb) by lia.
+    unfold step_ok, step_geom. cbn [o_class o_ridx o_off o_len o_glen o_nelem]. rewrite N.eqb_refl.
+    rewrite Hk, Q. cbn [result_kind]. split.
+    + rewrite !andb_true_iff. repeat split.
+      * unfold fitsb. rewrite Q. apply existsb_exists. exists (gb, sz). split; [assumption|].
+        cbn [in_region]. rewrite andb_true_iff, !N.leb_le. lia.
+      * unfold containedb. rewrite Hk. cbn [kind_eqb o_ridx o_off]. rewrite Hn.
+        unfold obs_reach, obs_extent. cbn [o_len o_glen].
+        destruct (s_b o =? GUARD_PANIC); [|rewrite N.max_id]; apply N.leb_le; lia.
+    + unfold rel, rel_acc, obs_extent. cbn [g_kind g_ridx g_off g_len g_nelem o_len kind_of acc_base acc_len acc_nelem vs_addr vs_size].
+      rewrite Hrb. repeat split; try reflexivity; try lia.
+      unfold acc_valid. cbn [acc_base acc_len vs_addr vs_size]. lia.
+  - (* get_host_address *)
+    unfold finish, lift_g.
+    destruct (gm_get_host_address (Some r) (s_a o)) as [[p|e]|x|] eqn:G; cbn [bind];
+      try (apply ERR; try apply class_of_derr_nz; discriminate).
+    destruct (gm_get_host_address_lemma _ _ _ Hvr G) as (r' & X & _ & _ & Hp & _). inversion X; subst r'. clear X.
+    rewrite Hr in Hp. cbn [gr_map gr_base rg_addr rg_size] in Hp.
+    rewrite obs_of_closed.
+    2:{ unfold acc_valid. rewrite Hp. cbn [acc_base acc_len]. lia. }
+    2:{ rewrite Hrb, Hp. cbn [acc_base]. lia. }
+    rewrite Hrb. unfold closed_obs. rewrite Hp. cbn [acc_base acc_len acc_nelem].
+    replace (REG_BASE + i * REG_STRIDE + (s_a o - gb) - (REG_BASE + i * REG_STRIDE)) with (s_a o - gb) by lia.
+    unfold step_ok, step_geom. cbn [o_class o_ridx o_off o_len o_glen o_nelem]. rewrite N.eqb_refl.
+    rewrite Hk, Q. cbn [result_kind]. split.
+    + rewrite !andb_true_iff. repeat split.
+      * unfold fitsb. rewrite Q. apply existsb_exists. exists (gb, sz). split; [assumption|].
+        cbn [in_region]. rewrite andb_true_iff, !N.leb_le. lia.
+      * unfold containedb. rewrite Hk. cbn [kind_eqb o_ridx o_off]. rewrite Hn.
+        unfold obs_reach, obs_extent. cbn [o_len o_glen].
+        destruct (1 =? GUARD_PANIC); [|rewrite N.max_id]; apply N.leb_le; lia.
+    + unfold rel, rel_acc, obs_extent. cbn [g_kind g_ridx g_off g_len g_nelem o_len kind_of acc_base acc_len acc_nelem].
+      rewrite Hrb. repeat split; try reflexivity; try lia.
+      unfold acc_valid. cbn [acc_base acc_len]. lia.
+Qed.
+
+(* ------------------------------------------------------------------ whole cases *)
+
+Lemma chain_ok_run c : (is_slice_root (c_rootk c) = false -> wf_regions (c_regions c)) ->
+  forall ops g st, rel c g st -> chain_ok c g ops (run_chain c st ops) = true.
+Proof.
+  intros Hwf. induction ops as [|o ops IH]; intros g st HR; cbn [run_chain chain_ok]; [reflexivity|].
+  destruct st as [ridx p|].
+  - pose proof (run_step_acc c g ridx p o HR) as H.
+    destruct (run_step c (SAcc ridx p) o) as [ob st']. destruct H as [H1 H2].
+    cbn [chain_ok]. rewrite H1. cbn [andb]. apply IH. exact H2.
+  - destruct HR as [Hk Hroot].
+    pose proof (run_step_gmem c g o (Hwf Hroot) Hroot Hk) as H.
+    destruct (run_step c SGMem o) as [ob st']. destruct H as [H1 H2].
+    cbn [chain_ok]. rewrite H1. cbn [andb]. apply IH. exact H2.
+Qed.
+
+Lemma root_rel c : wf_case c -> rel c (root_geom c) (root_state c).
+Proof.
+  intros [Hk Hw]. unfold root_geom, root_state.
+  destruct (is_slice_root (c_rootk c)) eqn:Hs.
+  - unfold rel, rel_acc, acc_valid, root_base. rewrite Hs.
+    cbn [g_kind g_ridx g_off g_len g_nelem kind_of acc_base acc_len acc_nelem vs_addr vs_size].
+    repeat split; try reflexivity; try lia.
+  - destruct Hw as [Hne [Hsz Hlen]].
+    destruct (c_regions c) as [|[gb sz] l] eqn:Hregs; [contradiction|].
+    cbn [mk_regions].
+    assert (Hs1 : sz < REG_STRIDE) by (inversion Hsz; assumption).
+    assert (Hb : REG_BASE + 0 * REG_STRIDE + sz < W64).
+    { rewrite REG_BASE_val, REG_STRIDE_val in *. rewrite W64_val. lia. }
+    destruct (N.eqb_spec (c_rootk c) RK_GMEM) as [Eg|Eg].
+    + rewrite Eg. cbn. split; [reflexivity|]. exact Hs.
+    + destruct (N.eqb_spec (c_rootk c) RK_REGION) as [Er|Er].
+      * unfold rel, rel_acc, acc_valid, root_base. rewrite Hs.
+        cbn [g_kind g_ridx g_off g_len g_nelem kind_of acc_base acc_len acc_nelem gr_map rg_addr rg_size].
+        repeat split; try reflexivity; try lia.
+      * destruct (N.eqb_spec (c_rootk c) RK_GREGION) as [Eq|Eq].
+        -- unfold rel, rel_acc, acc_valid, root_base. rewrite Hs.
+           cbn [g_kind g_ridx g_off g_len g_nelem kind_of acc_base acc_len acc_nelem gr_map rg_addr rg_size].
+           repeat split; try reflexivity; try lia.
+        -- exfalso. unfold is_slice_root, RK_REAL, RK_FAKE in Hs. unfold RK_GMEM, RK_REGION, RK_GREGION in *.
+           apply orb_false_iff in Hs. destruct Hs as [H0 H1].
+           apply N.eqb_neq in H0. apply N.eqb_neq in H1. lia.
+Qed.
+
+Lemma C01_model_ok_lemma : forall c, wf_case c -> ok_C01 c (run_C01 c) = true.
+Proof.
+  intros c Hwf. unfold ok_C01, run_C01. apply chain_ok_run.
+  - intros Hs. destruct Hwf as [_ Hw]. rewrite Hs in Hw. exact (proj2 Hw).
+  - apply root_rel. exact Hwf.
+Qed.
+
+(* the pointer additions on the way to an accessor meet the language precondition of ptr::add *)
+Lemma ptr_arith_defined_lemma : forall m p op c, acc_valid p -> op_wf op -> acc_len p <= ISZ_MAX ->
+  derive m p op = Val (Ok c) -> ptr_add_defined (acc_base p) (acc_base c - acc_base p) /\
+  acc_base c = acc_base p + (acc_base c - acc_base p).
+Proof.
+  intros m p op c Hv Hwf Hl E. destruct (derive_contained_lemma m p op c Hv Hwf E) as [[H1 H2] H3].
+  unfold ptr_add_defined, acc_valid in *. repeat split; lia.
+Qed.
